@@ -191,6 +191,47 @@ structure EKey where
   subnet : Pfx
 deriving DecidableEq, Repr
 
+/-! ## `toCacheKey`: the bytes fed to the 64-bit hash
+
+The caches are modelled as tables over the structural keys above.  The code hashes a byte string:
+the host name, then `qType`, `qClass` (little endian), the DO flag and the IPv6 flag, then for the
+ECS-aware cache the whole address of the subnet (`addr.AsSlice()`, 4 or 16 bytes) and its length
+(`byte(subnet.Bits())`), for the other cache the opt-out flag.  `ekeyBytes`/`nkeyBytes` are these
+byte strings without the host (the code compares the host of a hit separately);
+`Props/C05.lean` proves that they determine the structural key. -/
+
+/-- `n` bytes of `a`, big endian (`netip.Addr.AsSlice`). -/
+def beBytes : Nat → Nat → List Nat
+  | 0, _ => []
+  | n + 1, a => beBytes n (a / 256) ++ [a % 256]
+
+def b2n (b : Bool) : Nat := if b then 1 else 0
+
+def Fam.is6 : Fam → Bool | .v4 => false | .v6 => true
+
+/-- The fixed-size part `buf[:6]`. -/
+def keyHead (qtype qclass : Nat) (dobit : Bool) (f : Fam) : List Nat :=
+  [qtype % 256, qtype / 256 % 256, qclass % 256, qclass / 256 % 256, b2n dobit, b2n f.is6]
+
+def ekeyBytes (k : EKey) : List Nat :=
+  keyHead k.qtype k.qclass k.dobit k.subnet.fam ++ beBytes k.subnet.fam.alen k.subnet.addr ++
+    [k.subnet.bits % 256]
+
+def nkeyBytes (k : NKey) : List Nat :=
+  keyHead k.qtype k.qclass k.dobit k.fam ++ [b2n k.declined]
+
+/-- A byte string that keeps only the `bits / 8` leading bytes of the address ("only the bytes
+covered by the prefix"); used for a counter-example only. -/
+def ekeyBytesLeading (k : EKey) : List Nat :=
+  keyHead k.qtype k.qclass k.dobit k.subnet.fam ++
+    (beBytes k.subnet.fam.alen k.subnet.addr).take (k.subnet.bits / 8) ++ [k.subnet.bits % 256]
+
+/-- Ranges of the fields as the code has them (`uint16` type and class, an address of the family,
+a prefix length within the family). -/
+def Pfx.wf (p : Pfx) : Prop := p.addr < 2 ^ p.fam.bits ∧ p.bits ≤ p.fam.bits
+def EKey.wf (k : EKey) : Prop := k.qtype < 65536 ∧ k.qclass < 65536 ∧ k.subnet.wf
+def NKey.wf (k : NKey) : Prop := k.qtype < 65536 ∧ k.qclass < 65536
+
 structure Item where
   tok : Nat
   extra : List OptRR
